@@ -332,7 +332,14 @@ func (k *Case) runValidate() (out string) {
 		if k.DA != nil && k.DA.AuthzOther {
 			owner = "anotherAccount"
 		}
-		return &acme.Authorization{ID: id, AccountID: owner, Status: azStatus, ExpiresAt: azExpires}, nil
+		az := &acme.Authorization{ID: id, AccountID: owner, Status: azStatus, ExpiresAt: azExpires}
+		switch {
+		case k.DA != nil && k.DA.AuthzNotOwn:
+			az.Challenges = []*acme.Challenge{{ID: "anotherChallenge", Type: acme.DEVICEATTEST01, Status: acme.StatusPending}, nil}
+		case k.DA != nil && k.DA.AuthzLists:
+			az.Challenges = []*acme.Challenge{{ID: "anotherChallenge"}, {ID: "chID"}}
+		}
+		return az, nil
 	}
 	db.MockUpdateAuthorization = func(_ context.Context, az *acme.Authorization) error {
 		if k.DA != nil && k.DA.AuthzDBFail {
